@@ -467,6 +467,27 @@ example : FreshCopy w1 5 2 true ∧ NoValueLinks w1 0 2 5 ∧ NoRunWiring w1 0 :
   revert c
   decide
 
+/-- connections that CROSS a composite border are edges like any other in this model (the partner's
+owner simply has another parent): a channel outside the composite — inside a macro next door, or at
+the workflow level above — lists the stand-in exactly where it listed the replaced channel (and a
+refused replacement leaves it untouched: `C14_replace_atomic` has no hypothesis on where the
+partners live) -/
+theorem C14_crossing_inherited (fuel : Nat) (w : W) (p old new : Nat) (w' : W)
+    (h : compReplace (Cfg.repaired fuel) w p old new = (w', .ok)) (hinv : Inv w.g) (htab : Tables w old new)
+    (hself : NoSelfConn w.g old) (hns : new ∉ w.t.starting p) (q : Nat)
+    (_hcross : w.t.parent (w.g.owner q) ≠ some p) (hqo : w.g.owner q ≠ old) (hqn : w.g.owner q ≠ new) :
+    w'.g.conns q = (w.g.conns q).map (subst (standIns w new old)) :=
+  (C14_inherits fuel w p old new w' h hinv htab hself hns).1.neighbours q hqo hqn
+
+/-- the world of D1 with `d` (=4) owned by ANOTHER macro (7): `d.x` reads `b.o` across the border -/
+def t1x : Tree.Tree := mkTree [(0, .macro), (7, .macro)]
+  [(0, "m"), (1, "a"), (2, "b"), (3, "c"), (4, "d"), (5, "r"), (7, "n")] [(0, [1, 2, 3]), (7, [4])] []
+def w1x : W := mkW t1x g1
+example : w1x.t.parent 4 = some 7 ∧ (compReplace rep w1x 0 2 5).2 = .ok ∧
+    (compReplace rep w1x 0 2 5).1.g.conns 40 = [32, 52, 12] ∧ (compReplace rep w1x 0 2 5).1.g.conns 52 = [41, 40] ∧
+    (dag rep w1x 7 (fun _ => []) []).2 = .keyError ∧ (dag rep w1x 7 (fun _ => []) []).1.g.conns 40 = [32, 22, 12] := by
+  decide
+
 /-- KF-C14-1 on the tree as it is: `copy_io` prepends, so the stand-in jumps to the front of the
 neighbour's list (`[c.o, b.o, a.o]` becomes `[b'.o, c.o, a.o]`: the input now fetches from the
 replacement first) and its own list is the replaced one reversed -/
@@ -817,6 +838,7 @@ end PwVerif.C14
 #print axioms PwVerif.C14.C14_replace_atomic_partial
 #print axioms PwVerif.C14.C14_dag_atomic_partial
 #print axioms PwVerif.C14.C14_inherits_partial
+#print axioms PwVerif.C14.C14_crossing_inherited
 #print axioms PwVerif.C14.C14_inherits_order_witness
 #print axioms PwVerif.C14.C14_replace_link_witness
 #print axioms PwVerif.C14.C14_replace_missing_link_witness
